@@ -243,6 +243,19 @@ class Rig(object):
                             return viols, info
             else:
                 info = 'print/unmodelled/len%s/%s' % (lc, view)
+                # wherever the cursor is (e.g. on row 25, outside the scroll window): text that fits on
+                # the rest of the current row, printed without a newline, changes those cells only -
+                # otherwise SCREEN(r,c) would no longer return what was last written at other cells
+                if not nl and m.c <= m.w and (m.c - 1) + len(text) <= m.w and 1 <= m.r <= HEIGHT:
+                    exp = [bytearray(x) for x in before_rows]
+                    exp[m.r - 1][m.c - 1:m.c - 1 + len(text)] = text
+                    exp = [bytes(x) for x in exp]
+                    if rows != exp:
+                        bad = [i + 1 for i in range(HEIGHT) if exp[i] != rows[i]]
+                        viols.append((
+                            'print/fitting-text-moved-other-cells/%s' % cls,
+                            '%r at cursor (%d,%d) fits on the row, but rows %r changed (row %d is %r, expected %r)' % (
+                                stmt[:24], m.r, m.c, bad[:6], bad[0], rows[bad[0] - 1][:12], exp[bad[0] - 1][:12])))
         elif kind == 'L':
             lr, lcol = spec[1], spec[2]
             inscreen = 1 <= lr <= HEIGHT and 1 <= lcol <= w0
